@@ -47,6 +47,7 @@ PROPS = [
  ("fix: SCTE-35 events were lost in low-latency mode", ["C13", "C09"]),
  ("fix: an ingest session skipped segments of assets with fractional-millisecond segment ends", ["C16"]),
  ("fix: generated subtitle cues ended before they started", ["C12"]),
+ ("fix: the 425 answer to a request made before availabilityStartTime", ["C04", "C02"]),
 ]
 
 FINDINGS = json.load(open('/verif/known_findings_manual.json'))['findings']
